@@ -96,6 +96,11 @@ pub enum Signal {
 /// A correct run scans a directory at most a handful of times (once per spelling among the
 /// inputs); beyond this bound the run is rescanning in a loop and can never finish.
 pub const RESCAN_LIMIT: u32 = 64;
+/// A channel send on the unchanged code (unbounded queue) completes in microseconds. When a worker
+/// stays inside `send` for `BACKPRESSURE_SLICES` x `BACKPRESSURE_SLICE` while results are pending, the
+/// controller stops holding the coordinator (see `coordinator_poll`).
+const BACKPRESSURE_SLICE: std::time::Duration = std::time::Duration::from_millis(50);
+const BACKPRESSURE_SLICES: u32 = 8;
 
 struct State {
     epoch: u64,
@@ -114,6 +119,7 @@ struct State {
     choice_points: u32,
     diverged: u32,
     early_polls: u32,
+    forced_recvs: u32,
     held_at_begin: bool,
     max_parked: usize,
     signal: Option<Sender<Signal>>,
@@ -139,6 +145,8 @@ pub struct Trace {
     pub choice_log: Vec<(u32, u32)>,
     pub diverged: u32,
     pub early_polls: u32,
+    /// receive steps the controller had to concede because a worker was blocked inside `send`
+    pub forced_recvs: u32,
     pub held_at_begin: bool,
     pub max_parked: usize,
     pub spawned: u64,
@@ -184,6 +192,7 @@ impl Ctl {
                 choice_points: 0,
                 diverged: 0,
                 early_polls: 0,
+                forced_recvs: 0,
                 held_at_begin: false,
                 max_parked: 0,
                 signal: None,
@@ -219,6 +228,7 @@ impl Ctl {
         s.choice_points = 0;
         s.diverged = 0;
         s.early_polls = 0;
+        s.forced_recvs = 0;
         s.held_at_begin = false;
         s.max_parked = 0;
         s.signal = Some(signal);
@@ -241,6 +251,7 @@ impl Ctl {
             choice_log: std::mem::take(&mut s.choice_log),
             diverged: s.diverged,
             early_polls: s.early_polls,
+            forced_recvs: s.forced_recvs,
             held_at_begin: s.held_at_begin,
             max_parked: s.max_parked,
             spawned: s.tasks.len() as u64,
@@ -347,6 +358,10 @@ impl Ctl {
     fn pending(s: &State) -> u64 {
         // results sent (task ended without panic) and not yet received
         s.ended - s.panicked - s.received
+    }
+
+    fn only_senders_busy(s: &State) -> bool {
+        s.tasks.iter().any(|t| t.phase == Phase::Sending) && !s.tasks.iter().any(|t| t.phase == Phase::Running || (t.phase == Phase::AtBegin && t.release_begin) || (t.phase == Phase::AtEnd && t.release_end))
     }
 
     fn quiescent(s: &State) -> bool {
@@ -611,7 +626,9 @@ impl Controller for Ctl {
             return;
         }
         let epoch = s.epoch;
-        s.final_poll = if Self::in_flight(&s) == 0 && Self::pending(&s) == 0 && done == total { Some(std::time::Instant::now()) } else { None };
+        // time of the *first* poll that saw "everything done, nothing in flight, nothing pending": the
+        // loop must leave right after it; polls that keep coming in that state mean it is spinning
+        s.final_poll = if Self::in_flight(&s) == 0 && Self::pending(&s) == 0 && done == total { s.final_poll.or(Some(std::time::Instant::now())) } else { None };
         // compress runs of identical polls
         if !matches!(s.events.last(), Some(Event::Poll { done: d, total: t }) if *d == done && *t == total) {
             Self::ev(&mut s, Event::Poll { done, total });
@@ -642,14 +659,24 @@ impl Controller for Ctl {
                 }
             }
             Spec::Controlled { early_poll_at, .. } => loop {
+                let mut waited = 0u32;
                 while !Self::quiescent(&s) {
-                    s = match self.cv.wait(s) {
-                        Ok(g) => g,
-                        Err(e) => e.into_inner(),
+                    s = match self.cv.wait_timeout(s, BACKPRESSURE_SLICE) {
+                        Ok((g, _)) => g,
+                        Err(e) => e.into_inner().0,
                     };
                     if s.epoch != epoch {
                         drop(s);
                         Self::park_forever();
+                    }
+                    waited += 1;
+                    if waited >= BACKPRESSURE_SLICES && Self::pending(&s) > 0 && Self::only_senders_busy(&s) {
+                        // a worker has been inside `send` for a long time while results are waiting to
+                        // be received: the channel exerts back-pressure (bounded queue). Holding the
+                        // coordinator here would be a deadlock of the controller's own making, so let
+                        // it receive (an unrecorded, forced receive step).
+                        s.forced_recvs += 1;
+                        return;
                     }
                 }
                 let mut opts = Self::options(&s);
@@ -693,14 +720,20 @@ impl Controller for Ctl {
                         let i = id as usize;
                         s.tasks[i].release_end = true;
                         self.cv.notify_all();
+                        let mut waited = 0u32;
                         while s.tasks[i].phase != Phase::Ended {
-                            s = match self.cv.wait(s) {
-                                Ok(g) => g,
-                                Err(e) => e.into_inner(),
+                            s = match self.cv.wait_timeout(s, BACKPRESSURE_SLICE) {
+                                Ok((g, _)) => g,
+                                Err(e) => e.into_inner().0,
                             };
                             if s.epoch != epoch {
                                 drop(s);
                                 Self::park_forever();
+                            }
+                            waited += 1;
+                            if waited >= BACKPRESSURE_SLICES && Self::pending(&s) > 0 && s.tasks[i].phase == Phase::Sending {
+                                s.forced_recvs += 1; // see above: the send waits for the coordinator to receive
+                                return;
                             }
                         }
                     }
